@@ -98,7 +98,7 @@ func (s *sys) emit(l *logger.Logger) (string, string) {
 
 func alone(kind int, chain []vlog.ChainOp) string {
 	w := &sink{}
-	vlog.Derive(newRoot(kind, w), chain).Info("probe", vlog.Args(probeCall)...)
+	vsched.Free(func() { vlog.Derive(newRoot(kind, w), chain).Info("probe", vlog.Args(probeCall)...) })
 	return strings.Join(w.chunks, "")
 }
 
